@@ -120,6 +120,16 @@ def offset_reservation_rule(ctx: Ctx, rid: str):
             continue
         n += 1
         ok = raise_only_write(fn, node, val)
+        # ... and a slot without a ledger entry counts as unused (0), so the reservation is made on a fresh slot too
+        res_ = local_resolver(fn.node)
+        reads = [v for nm in own_nodes(fn) if isinstance(nm, ast.Assign) and isinstance(nm.targets[0], ast.Name)
+                 for v in [nm.value] if isinstance(v, ast.Call) and "slotSecondsUsed" in norm(v) and isinstance(v.func, ast.Attribute)
+                 and v.func.attr == "get"]
+        zero_default = bool(reads) and all(len(v.args) >= 2 and isinstance(v.args[1], ast.Constant) and v.args[1].value in (0, 0.0) for v in reads)
+        other_guards = [t for cl in facts_of(fn).at(node) if len(cl) == 1 for (t, p) in cl if "is not None" in t or "is None" in t
+                        if any(isinstance(x, ast.Name) and any(isinstance(v, ast.Call) and "slotSecondsUsed" in norm(v) for v in res_(x))
+                               for x in ast.walk(lit_compare(t) or ast.Constant(value=0)))]
+        ok = ok and zero_default and not other_guards
         ctx.ob(rid, f"{fn.qual}: {norm(node.ast)[:70]}", (fn, node.ast), ok,
                "the start-offset part of the slot is reserved exactly when less than the offset is in use" if ok else
                "the reservation of the predecessor's part of the start slot is not guarded by exactly `used < offset`: "
@@ -319,7 +329,7 @@ def run(ctx: Ctx):
     # ---------------------------------------------------------------- R01.6 (shared with C06)
     from .c06 import precise_end_rules
     precise_end_rules(ctx, "R01.6")
-    ctx.floor("R01.6", 5)
+    ctx.floor("R01.6", 6)
     ctx.floor("R01.1", 5)
     ctx.floor("R01.2", 7)
     ctx.floor("R01.3", 2)
